@@ -1188,6 +1188,9 @@ impl Optimizer {
         // right_keys are the indices that were excluded from the Join output
         let mut sorted_keys = right_keys.to_vec();
         sorted_keys.sort_unstable();
+        // a right column may serve as key for several left columns (e.g. `a(X, X), d(X, ..)`);
+        // it is still excluded from the join output only once
+        sorted_keys.dedup();
 
         projection
             .iter()
